@@ -177,6 +177,34 @@ def toplevel_faults():
     out.append(("missing final return", fn("ohne%N%", "eine Zahl", "\tDie Zahl q%N% ist 1."), fn("ohne%N%", "eine Zahl", "\tGib 1 zurück."), {}))
     out.append(("missing final return: after if", fn("ohne%N%", "eine Zahl", "\tWenn wahr, dann:\n\t\tGib 1 zurück.\n\tDie Zahl q%N% ist 2."),
                 fn("ohne%N%", "eine Zahl", "\tWenn wahr, dann:\n\t\tGib 1 zurück.\n\tGib 2 zurück."), {}))
+    # the same return rules for every form in which a function body can be written: each form parses its body at another place
+    RT = {"Zahl": ("eine Zahl", "1", '"text"'), "Text": ("einen Text", '"a"', "1"), "Zahlen Liste": ("eine Zahlen Liste", "(eine Liste, die aus 1 besteht)", '"a"'),
+          "Wahrheitswert": ("einen Wahrheitswert", "wahr", '"a"')}
+
+    def forms(name, ret, body):
+        """the function `name` with this body in every declaration form, each followed by a use so that generic bodies are instantiated"""
+        plain = "Die Funktion %s gibt %s zurück, macht:\n%s\nUnd kann so benutzt werden:\n\t\"%s\"\n" % (name, ret, body, name)
+        public = plain.replace("Die Funktion", "Die öffentliche Funktion", 1)
+        forward = ("Die Funktion %s gibt %s zurück,\nwird später definiert\nund kann so benutzt werden:\n\t\"%s\"\nDie Zahl vor%s ist 1.\nDie Funktion %s macht:\n%s\n" % (
+            name, ret, name, name, name, body))
+        generic = ("Die generische Funktion %s mit dem Parameter gp vom Typ T, gibt %s zurück, macht:\n%s\nUnd kann so benutzt werden:\n\t\"%s <gp>\"\n%s 5.\n" % (
+            name, ret, body, name, name))
+        param = ("Die Funktion %s mit dem Parameter zp vom Typ Zahlen Referenz, gibt %s zurück, macht:\n%s\nUnd kann so benutzt werden:\n\t\"%s <zp>\"\n" % (name, ret, body, name))
+        return [("plain", plain), ("public", public), ("forward", forward), ("generic", generic), ("referenz-param", param)]
+    for tn, (ret, good, wrong) in RT.items():
+        bodies = [("missing final return", "\tDie Zahl q%N% ist 1.", "\tGib " + good + " zurück."),
+                  ("missing final return: returns only in branches", "\tWenn wahr, dann:\n\t\tGib " + good + " zurück.\n\tSonst:\n\t\tWenn falsch, dann:\n\t\t\tGib " + good + " zurück.\n\tDie Zahl q%N% ist 2.",
+                   "\tWenn wahr, dann:\n\t\tGib " + good + " zurück.\n\tGib " + good + " zurück."),
+                  ("missing final return: ends in a loop", "\tSolange wahr, mache:\n\t\tGib " + good + " zurück.", "\tSolange wahr, mache:\n\t\tGib " + good + " zurück.\n\tGib " + good + " zurück."),
+                  ("returned value type", "\tGib " + wrong + " zurück.", "\tGib " + good + " zurück."),
+                  ("returned value type: in a branch", "\tWenn wahr, dann:\n\t\tGib " + wrong + " zurück.\n\tGib " + good + " zurück.", "\tWenn wahr, dann:\n\t\tGib " + good + " zurück.\n\tGib " + good + " zurück.")]
+        for cls, bad_body, good_body in bodies:
+            for (fname, bad_src), (_, good_src) in zip(forms("rf%N%", ret, bad_body), forms("rf%N%", ret, good_body)):
+                if fname == "plain" and tn == "Zahl":
+                    continue        # the hand-written entries above and below
+                out.append(("%s [%s, %s]" % (cls, fname, tn), bad_src, good_src, {}))
+    for (fname, bad_src), (_, good_src) in zip(forms("rn%N%", "nichts", "\tGib 1 zurück."), forms("rn%N%", "nichts", "\tVerlasse die Funktion.")):
+        out.append(("return value from nothing-function [%s]" % fname, bad_src, good_src, {}))
     out.append(("returned value type", fn("falsch%N%", "eine Zahl", '\tGib "text" zurück.'), fn("falsch%N%", "eine Zahl", "\tGib 1 zurück."), {}))
     out.append(("returned value type: list", fn("falsch%N%", "einen Text", "\tGib (eine Liste, die aus 1 besteht) zurück."), fn("falsch%N%", "einen Text", '\tGib "a" zurück.'), {}))
     out.append(("return value from nothing-function", fn("nix%N%", "nichts", "\tGib 1 zurück."), fn("nix%N%", "nichts", "\tVerlasse die Funktion."), {}))
